@@ -6,6 +6,7 @@ import PjrpcModel.Driver.SuiteRegistry
 import PjrpcModel.Driver.SuiteAsync
 import PjrpcModel.Driver.SuiteClient
 import PjrpcModel.Driver.SuiteMocker
+import PjrpcModel.Driver.SuiteHttp
 open Pjrpc.Driver
 
 def handle (line : String) : String :=
@@ -20,6 +21,7 @@ def handle (line : String) : String :=
       | "async" => suiteAsync c
       | "client" => suiteClient c
       | "mocker" => suiteMocker c
+      | "http" => suiteHttp c
       | s => throw s!"unknown suite {s}"
     match r with
     | .ok j => j.compress
